@@ -347,6 +347,15 @@ class ProgGen(object):
                     parts.append(self.marker())
             else:
                 parts.append(self.marker())
+        if not plain and r.random() < 0.15:
+            # an argument that begins or ends with a blank inside its braces: substituted next to a blank of a replacement text it
+            # gives two space tokens in a row, which no source text can
+            self.features.add('blank-edged-argument')
+            k = r.random()
+            if k < 0.6:
+                parts.insert(0, ' ')
+            if k > 0.4:
+                parts.append(' ')
         return ''.join(parts)
 
     def gen_call(self, sig, nparams=0, depth=0, callees=None, toplevel=False):
@@ -402,6 +411,11 @@ class ProgGen(object):
         k = r.random()
         sp = ' ' if r.random() < 0.2 else ''
         if k < 0.3:
+            if nparams and k < 0.07:
+                # a parameter of the enclosing macro, unbraced, as the argument: whatever it stands for is substituted first (its first
+                # token or group is taken; a blank at its edge meets the blank written before it)
+                self.features.add('unbraced-parameter-argument')
+                return r.choice(['', ' ', ' ']) + '#%d' % r.randint(1, nparams) + self.marker()
             return sp + r.choice(MARK)
         if k < 0.4 and callees:
             # an unbraced control sequence as the argument: the single token is passed on unexpanded (a parameterless macro, or \relax)
